@@ -115,6 +115,8 @@ pub fn evaluate(prop: &str, case: &Case, model: &Model, hist: &History) -> Verdi
         "C10" => crate::oracle2::c10(&a, &mut v),
         "C11" => crate::oracle2::c11(&a, &mut v),
         "C16" => crate::oracle2::c16(&a, &mut v),
+        "C13" => crate::oracle3::c13(&a, &mut v, "C13"),
+        "C14" => crate::oracle3::c13(&a, &mut v, "C14"),
         "C17" => crate::oracle3::c17(&a, &mut v),
         "C18" => crate::oracle3::c18(&a, &mut v),
         _ => {}
@@ -182,7 +184,19 @@ pub fn permitted_omission(a: &Analysis, r: &ExpRec) -> bool {
 pub fn delivered_batch(a: &Analysis, i: usize) -> Option<usize> {
     // any twin counts (same-trace multi-parent replicas are indistinguishable)
     let mut best: Option<usize> = None;
-    for j in a.twins(i) {
+    // expectations that a delivered record cannot be told apart from: identical ones, and those of
+    // the same span in the same trace when a parent's id was never observed
+    let r = &a.model.recs[i];
+    let known = |p: &PRef| a.parent_id(p).is_some();
+    let alts: Vec<usize> = a
+        .model
+        .recs
+        .iter()
+        .enumerate()
+        .filter(|(_, x)| x.trace_id == r.trace_id && x.node == r.node && (x.parent == r.parent || !known(&x.parent) || !known(&r.parent)))
+        .map(|(j, _)| j)
+        .collect();
+    for j in alts {
         for &d in &a.matched[j] {
             let b = a.delivered[d].batch;
             best = Some(best.map(|x: usize| x.min(b)).unwrap_or(b));
